@@ -248,6 +248,10 @@ def step (s : St) (line : String) : St × String :=
         some (Eff.branchRename [111] [110] [1]
           [.append .logHead [], .append .logHead [], .remove (.logBranch [111]), .append (.logBranch [110]) [], .append (.logBranch [110]) []])
       | "config" => some (Eff.replace "config" .config [])
+      | "branch-d" => some (Eff.branchDelete [111])
+      | "rm" => some (Eff.rmFiles ((List.range (n 0)).map fun i => ([UInt8.ofNat i], ([] : Bytes))))
+      | "restore-staged" => some (Eff.restoreStaged ((List.range (n 0)).map fun _ => ([] : Bytes)))
+      | "init" => some Eff.init
       | _ => none
     (s, match es with | some es => " ".intercalate (Eff.shape es) | none => "unsupported")
   | _ => (s, "bad-op")
